@@ -101,7 +101,7 @@ def load_known(prop):
     return [e for e in data.get("findings", []) if e.get("property") == prop and e.get("status", "open") == "open"]
 
 
-def match_known(entry, unit, ob):
+def unit_matches(entry, unit):
     m = entry.get("match", {})
     for k, v in m.get("unit", {}).items():
         uv = unit.get(k) if isinstance(unit, dict) else None
@@ -110,7 +110,19 @@ def match_known(entry, unit, ob):
                 return False
         elif uv != v:
             return False
-    if "obligation" in m and not re.search(m["obligation"], ob.get("name", "")):
+    return True
+
+
+def match_known(entry, unit, ob):
+    m = entry.get("match", {})
+    if not unit_matches(entry, unit):
+        return False
+    name = ob.get("name", "")
+    if "witness" in m:
+        # witness-restricted entries are decided inside the harness (it re-proves the obligation
+        # outside the witness class); only obligations it tagged belong to the finding
+        return name.endswith("@known:" + entry["id"])
+    if "obligation" in m and not re.search(m["obligation"], name):
         return False
     if "detail" in m and not re.search(m["detail"], str(ob.get("detail") or "")):
         return False
